@@ -66,6 +66,24 @@ func checkCase(c Case, s *rt.Section) (*rt.Failure, *bcverify.Stats, bool) {
 		return s.NewFailure("verifier", "harness:verifier-panic", c, pv.Value+"\n"+pv.Stack, "verifier terminates"), st, true
 	}
 	if len(vs) == 0 {
+		// cross-check of the verifier's opcode table against the VM: code that the verifier accepts must not
+		// trip the dispatch loop's stack handling on the path that actually runs (small budget, fresh VM,
+		// jump sentinel off)
+		ds.VerifMarkUnpatched.Store(false)
+		vm2 := c.Cfg.NewVM()
+		vm2.Config.OpCountLimit = 3000
+		vm2.Config.CallbackSt = func(string, string, *ds.VMValue, *ds.VMValue, string, string) {}
+		ds.VerifMeterReset(2_000_000)
+		pr := rt.Guard(func() { _ = vm2.Run(c.Src) })
+		ds.VerifMeterReset(0)
+		if pr != nil {
+			if _, hit := pr.Raw.(ds.VerifCeilingHit); !hit && strings.HasPrefix(pr.Func, "(*Context).evaluate") &&
+				(pr.Class == "index" || pr.Class == "slice" || pr.Class == "type-assertion" || pr.Class == "nil") {
+				return s.NewFailure("verified-code-runs", "bc:runtime:"+pr.Sig(), c,
+					"the verifier accepts this code but executing it panics in the dispatch loop: "+pr.Value+" | code: "+listing(code),
+					"accepted code never trips the VM's stack or operand handling"), st, true
+			}
+		}
 		return nil, st, true
 	}
 	v := vs[0]
@@ -80,6 +98,7 @@ var fixedProgs = []string{
 	"1 || 2", "1 || 2 || 3", "1 && 2", "x = 1; x", "if 1 { 2 } else { 3 }", "i=0; while i<3 { i=i+1 }", "i=0; while i<3 { i=i+1; if i>1 { break } }",
 	"i=0; while i<3 { i=i+1; if i>1 { continue } }", "func g(n) { if n { return 1 } 2 }; g(1)", "&c = 1d6+2; c", "`a{1}b{% x=2 %}`", "dct = {}; dct.k = 1",
 	"x=[1,2]; x[0] = 5", "x=[1,2]; x[0:1] = [3]", "1 ? 2 : 3", "0 ? 2, 1 ? 3", "[1,2,3][1:2]", "2d6kh1", "d20优势", "3d", "d", "f", "b2", "p", "2a5k6", "2c5m7", "^st力量60敏捷70",
+	"dct = {}; dct.k = dct['j'] = []", "x=[1,2]; y = x[0] = 5", "x=[1,2]; y=[3]; x[0] = y[0] = 7", "x=[1,2,3]; y = x[0:1] = [9]", "x={}; y = x.a = 3; y", "func g(n) { n }; x={}; g(x.a = 2)", "x={}; [x.a = 1, x.b = 2]",
 	"^st 力量+1d6", "^st &手枪=1d6", "^st力量*2:60", "null ?? 1", "-1", "+1", "[1..3]", "{'a':1,}", "this.x = 1", "&a.b = 2", "x.y.z", "f(1)(2)", "a = b = 3", "x = y[0] = 1", "dct.k = dct['j'] = []",
 }
 
@@ -99,6 +118,7 @@ func TestProp(t *testing.T) {
 		o := gen.DefaultOpts()
 		o.Dice, o.CoC, o.WoD, o.Fate, o.DC = true, c.Cfg.CoC, c.Cfg.WoD, c.Cfg.Fate, c.Cfg.DC
 		o.MaxStmts, o.MaxDepth = 6, 4
+		o.AssignExprAll = true
 		o.Avoid = s.Avoid
 		g := gen.NewG(t, o, nil)
 		switch rapid.IntRange(0, 11).Draw(t, "srcKind") {
